@@ -221,7 +221,9 @@ Inductive eop : Type :=
 | ERedecode (d : nat)  (* decoders[d]._decode(); decoders[d].mnemonic_array *)
 | ERead (d : nat)      (* decoders[d].mnemonic_array *)
 | ECopyInfo            (* info = pickle round trip / copy.deepcopy / copy.copy of info (or of its structs object) *)
-| EReopen.             (* info = a NEW EHABIInfo: get_ehabi_infos()[0] of the ELFFile or of a pickled / deep-copied ELFFile *)
+| EReopen              (* info = a NEW EHABIInfo: get_ehabi_infos()[0] of the ELFFile or of a pickled / deep-copied ELFFile *)
+| EMutate (e : nat).   (* the caller edits ITS entry object #e in place: entries[e].function_offset += 0x1000,
+                          entries[e].bytecode_array.append(0xb0); what the file decodes to is untouched *)
 
 Definition mnitems : Type := list (list Z * string).
 Inductive eans : Type :=
@@ -231,6 +233,14 @@ Inductive eans : Type :=
 | EAErr (e : err)
 | EAUnit                          (* nothing to see (copy, reopen) *)
 | EABad.                         (* names an entry / decoder that was never created, or a decoder over no byte-code *)
+
+(* the edit of EMutate, on what the caller holds *)
+Definition mutate_entry (r : eh_out) : eh_out :=
+  {| eo_function_offset := option_map (fun v => v + 0x1000) (eo_function_offset r);
+     eo_personality := eo_personality r;
+     eo_bytecode := option_map (fun b => b ++ [0xb0]) (eo_bytecode r);
+     eo_eh_table_offset := eo_eh_table_offset r;
+     eo_unwindable := eo_unwindable r; eo_corrupt := eo_corrupt r |}.
 
 Record espec := mkESpec { es_entries : list eh_out; es_decoders : list (list Z) }.
 
@@ -278,6 +288,11 @@ Definition estep_spec (num : Z) (entry : Z -> res eh_out) (disasm : list Z -> re
       | None => (st, EABad)
       end
   | ECopyInfo | EReopen => (st, EAUnit)
+  | EMutate e =>
+      match nth_error (es_entries st) e with
+      | Some r => (mkESpec (set_nth (es_entries st) e (mutate_entry r)) (es_decoders st), EAUnit)
+      | None => (st, EABad)
+      end
   end.
 
 Fixpoint erun_spec (num : Z) (entry : Z -> res eh_out) (disasm : list Z -> res mnitems)
